@@ -33,10 +33,14 @@ class Peer(object):
     def _compressor(self, level):
         return zlib.compressobj(level, zlib.DEFLATED, -max(9, self.server_bits))
 
-    def compress(self, payload, level=-1, mid_flush=(), full_flush=False):
+    def compress(self, payload, level=-1, mid_flush=(), full_flush=False, final=False):
         """Deflate one message; ``mid_flush`` = payload offsets at which a sync flush
         is emitted in the middle of the message (legal: DEFLATE blocks may be flushed
-        anywhere).  Returns the extension payload (final tail removed)."""
+        anywhere).  Returns the extension payload (final tail removed).
+
+        ``final`` = the message ends with a DEFLATE block that has BFINAL set, followed by
+        the 0x00 octet of RFC 7692 7.2.3.4; the DEFLATE stream has ended, so the next
+        message starts a new one (no reference to earlier messages is possible)."""
         if self._c is None or self.server_nct:
             self._c = self._compressor(level)
         out = []
@@ -46,6 +50,10 @@ class Peer(object):
             out.append(self._c.flush(zlib.Z_FULL_FLUSH if full_flush else zlib.Z_SYNC_FLUSH))
             last = off
         out.append(self._c.compress(payload[last:]))
+        if final:
+            out.append(self._c.flush(zlib.Z_FINISH))
+            self._c = None
+            return b"".join(out) + b"\x00"
         out.append(self._c.flush(zlib.Z_SYNC_FLUSH))
         data = b"".join(out)
         assert data.endswith(TAIL)
